@@ -78,7 +78,10 @@ func (ts *TagSet) Merge(other *TagSet) *TagSet {
 	if other == nil || ts.Schema != other.Schema {
 		return ts
 	}
-	nl := ts.List // shallow copy
+	// real copy: appending to the original list could write into the
+	// spare capacity of a regime's or addon's shared definition
+	nl := make([]*cbc.Definition, len(ts.List), len(ts.List)+len(other.List))
+	copy(nl, ts.List)
 	for _, t := range other.List {
 		found := false
 		for _, nlt := range nl {
